@@ -6,367 +6,441 @@
       (eigenvectors as columns); the eigen solver applies one sorting permutation to the eigenvalues and to
       the *column* axis of the eigenvectors, sorted ascending; eigen_sym33_unit scales the input by 1/max-norm,
       rescales the eigenvalues by the same max-norm and normalises each column by its own length;
+      exact algebra of the closed-form solver (rules/C12_eigen.py);
   O3  derivative rules: every custom_jvp function has a registered rule whose primal output is computed by
       calling the decorated function (so higher derivatives attach) and whose tangent helper receives the same
       scalar function as the primal; the degenerate fallback of the divided difference uses the derivative;
       the relative-difference formulas equal (f(a)-f(b))/(a-b): proved for the square root (algebraic atoms),
       screened for counterexamples at sample points for exp / log / power (refutation only).
+  O4  Denman-Beavers product form: loop invariant on symbolic 1x1 data and the scaling switch.
+
+Every obligation is decided on *values* obtained by interpreting the functions symbolically (rules/C12_sym.py: helper functions are
+followed, keyword / positional calls, lambdas / nested defs, temporaries, renamed locals and reordered independent statements do not matter;
+conditions are symbolic, selections are registered atoms resolved per situation), never on the text of a statement.
+
 Not decided: accuracy over forty orders of magnitude, derivative accuracy near degeneracy, Denman-Beavers and
 Pade convergence in LinAlg (numerical).
 """
 from __future__ import annotations
 
 import ast
-import copy
 import math
 from fractions import Fraction
 
-from optilint.model import dotted, FuncVal, ExtVal
+from optilint.model import FuncVal, ExtVal
 from optilint.core import Incomplete
-from optilint.expr import Algebra, NotPolynomial, feval
-from .common import src, same, calls_in, const_value
-from . import tensorid, eigenalg
+from optilint.expr import Rat, Poly, simplify
+from optilint.tensoreval import (Dual, Arr, PyFunc, Closure, Unknown, EvalError, Raised, matmul, _A, rat_const, rat_is_zero)
+from . import tensorid
+from . import C12_eigen
+from .C12_sym import SymInterp, generic_matrix
 
 LEVEL = "other"
-RULE_TEXT = "obligations = (helper x polynomial identity) + (eigen-solver statement role) + (custom_jvp function x wiring clause) + relative-difference identities"
-EXPLANATION = ("Polynomial identities of the closed-form 3x3 helpers on a generic symbolic matrix; index-space and permutation-role rules for "
-               "the eigen solver and symmetric_matrix_function; custom_jvp protocol and primal/tangent scalar-function agreement; algebraic "
-               "proof (sqrt) or sample-point refutation screen (exp/log/pow) of the divided-difference formulas. Floating-point accuracy "
-               "claims of the property are not decided.")
+RULE_TEXT = "obligations = (helper x polynomial identity) + (eigen-solver value x role) + (custom_jvp function x wiring clause) + relative-difference identities"
+EXPLANATION = ("Polynomial identities of the closed-form 3x3 helpers on a generic symbolic matrix; the eigen solver, its unit-norm wrapper, "
+               "symmetric_matrix_function, the custom_jvp rules, the tangent helper and the Denman-Beavers loop body are interpreted symbolically "
+               "(conditions symbolic, one run per situation) and the obligations are decided on the resulting exact values: index spaces and the "
+               "sorting permutation, the algebra of the closed-form roots, custom_jvp protocol and primal/tangent scalar-function agreement, "
+               "Daleckii-Krein assembly for distinct / double / triple eigenvalues; algebraic proof (sqrt) or sample-point refutation screen "
+               "(exp/log/pow) of the divided-difference formulas. Floating-point accuracy claims of the property are not decided.")
 
 TM = "optimism.TensorMath"
+NONUNIT = f"{TM}:eigen_sym33_non_unit"
+UNIT = f"{TM}:eigen_sym33_unit"
+HELPER = f"{TM}:_symmetric_matrix_function_jvp_helper"
+SMF = f"{TM}:symmetric_matrix_function"
+_ERR = (EvalError, Raised, KeyError, IndexError, TypeError, ZeroDivisionError, AttributeError, ValueError, RecursionError)
+
+
+def _safe(fn):
+    """a rule function whose interpreter errors make the rule undecided (never a crash, never a violation)"""
+    def wrapped(ctx, *a):
+        try:
+            return fn(ctx, *a)
+        except (EvalError, Raised, ZeroDivisionError, RecursionError, OverflowError) as ex:
+            raise Incomplete(f"{fn.__name__}: {type(ex).__name__}: {ex}")
+    wrapped.__name__ = fn.__name__
+    return wrapped
 
 
 def run(ctx):
     ctx.need_module(TM)
     ctx.need_module("optimism.Math")
-    ctx.guard(tensorid.run_identities, ctx, "O1/T7-helper-identities")
+    ctx.guard(_safe(helper_identities), ctx, "O1/T7-helper-identities")
     ctx.guard(o2, ctx)
-    ctx.guard(eigenalg.run, ctx, "O2/T7-eigen-solver-algebra", f"{TM}:eigen_sym33_non_unit")
-    ctx.guard(trig_table, ctx)
-    ctx.guard(jvp_wiring, ctx, "O3/T5-custom-jvp-wiring")
-    ctx.guard(relative_differences, ctx)
-    ctx.guard(log_taylor, ctx)
-    ctx.guard(denman_beavers, ctx)
+    ctx.guard(_safe(C12_eigen.run), ctx, "O2/T7-eigen-solver-algebra", NONUNIT)
+    ctx.guard(_safe(trig_table), ctx)
+    ctx.guard(_safe(jvp_wiring), ctx, "O3/T5-custom-jvp-wiring")
+    ctx.guard(_safe(relative_differences), ctx)
+    ctx.guard(_safe(log_taylor), ctx)
+    ctx.guard(_safe(denman_beavers), ctx)
     ctx.trust("jax.custom_jvp protocol: rule(primals, tangents) -> (primal_out, tangent_out)")
     ctx.assume("eigenvalues of arguments of log/sqrt/power are positive")
 
 
+def _atoms(prefix, n):
+    return [Dual(_A.atom(f"{prefix}{i}")) for i in range(n)]
+
+
+def _same(x, y):
+    """two interpreter values are the same exact value"""
+    if isinstance(x, Dual) and isinstance(y, Dual):
+        return _A.equal(x.a, y.a) and _A.equal(x.b, y.b)
+    if isinstance(x, Arr) and isinstance(y, Arr):
+        return x.shape == y.shape and all(_same(a, b) for a, b in zip(x.data, y.data))
+    if isinstance(x, (tuple, list)) and isinstance(y, (tuple, list)):
+        return len(x) == len(y) and all(_same(a, b) for a, b in zip(x, y))
+    if isinstance(x, (int, float, Fraction)) and isinstance(y, (int, float, Fraction, Dual)) or isinstance(y, (int, float, Fraction)) and isinstance(x, Dual):
+        try:
+            return _same(Dual.of(x), Dual.of(y))
+        except EvalError:
+            return False
+    return x is y
+
+
+def _bind(scope, args, kw):
+    """actual arguments of a recorded call by position in the callee's signature"""
+    ps = scope.params()
+    vals = list(args) + [None] * max(0, len(ps) - len(args))
+    for k, v in kw.items():
+        if k in ps:
+            vals[ps.index(k)] = v
+    return vals
+
+
+# ------------------------------------------------------------------------------------------------ O1: closed-form helpers
+
+def helper_identities(ctx, rule):
+    """det, trace, I2, detpIm1, inv, deviator, sym/skw, norm_of_deviator_squared interpreted on a generic symbolic matrix (entries a00..a22):
+    the defining polynomial identities must hold exactly.  (Same obligations as rules/tensorid.py, decided with the symbolic interpreter of
+    this module so that helper functions, loops, einsum / cross / transpose spellings are followed.)"""
+    mod = ctx.need_module(TM)
+    I = SymInterp(ctx.repo)
+    I.tolerant = False
+    A = tensorid.generic()
+    One = tensorid.ident()
+    g = lambda i, j: A.data[i * 3 + j]
+
+    def call(name, *args):
+        return I.run(ctx.need(f"{TM}:{name}"), list(args))
+
+    def attempt(name, fn):
+        sc = ctx.need(f"{TM}:{name}")
+        try:
+            ok, detail, bad = fn()
+        except _ERR as ex:
+            ctx.undecided(rule, sc, None, construct=f"TensorMath.{name}", detail=f"cannot interpret on a generic matrix: {ex}")
+            return
+        ctx.decide(rule, ok, sc, None, construct=f"TensorMath.{name}", detail=detail, bad_detail=bad)
+
+    def t_det():
+        d = I.num(call("det", A))
+        return _A.equal(d.a, tensorid.det3(A).a), "det(A) is the Leibniz expansion", f"TensorMath.det(A) = {d.a!r} is not the determinant of a generic 3x3 matrix"
+
+    def t_trace():
+        d = I.num(call("trace", A))
+        return _A.equal(d.a, (g(0, 0) + g(1, 1) + g(2, 2)).a), "trace(A) = a00+a11+a22", f"TensorMath.trace(A) = {d.a!r}"
+
+    def t_I2():
+        d = I.num(call("I2", A))
+        want = g(0, 0) * g(1, 1) - g(0, 1) * g(1, 0) + g(0, 0) * g(2, 2) - g(0, 2) * g(2, 0) + g(1, 1) * g(2, 2) - g(1, 2) * g(2, 1)
+        return _A.equal(d.a, want.a), "I2(A) = sum of principal 2x2 minors", f"TensorMath.I2(A) = {d.a!r} is not the second invariant"
+
+    def t_detpIm1():
+        d = I.num(call("detpIm1", A))
+        want = tensorid.det3(A.zip(One, lambda x, y: x + y)) - Dual(1)
+        return _A.equal(d.a, want.a), "detpIm1(A) == det(A + I) - 1 for a generic matrix", f"detpIm1(A) differs from det(A+I)-1 by {_A.norm(d.a - want.a)!r}"
+
+    def t_inv():
+        B = call("inv", A)
+        left, right = matmul(B, A), matmul(A, B)
+        ok = tensorid.arr_equal(left, One) and tensorid.arr_equal(right, One)
+        wrong = [(i, j) for i in range(3) for j in range(3) if not _A.equal(left.data[i * 3 + j].a, One.data[i * 3 + j].a)]
+        return ok, "inv(A) @ A == A @ inv(A) == I for a generic matrix", \
+            f"inv(A) @ A differs from the identity in entries {wrong} for a generic (non-symmetric) matrix: an entry of the adjugate is wrong"
+
+    def t_dev():
+        D = call("deviator", A)
+        tr = D.data[0] + D.data[4] + D.data[8]
+        off = all(_A.equal(D.data[i * 3 + j].a, A.data[i * 3 + j].a) for i in range(3) for j in range(3) if i != j)
+        iso = _A.equal((A.data[0] - D.data[0]).a, (A.data[4] - D.data[4]).a) and _A.equal((A.data[0] - D.data[0]).a, (A.data[8] - D.data[8]).a)
+        return rat_is_zero(tr.a) and off and iso, "deviator(A) is traceless and differs from A by a multiple of I", \
+            f"deviator(A): trace {tr.a!r}, off-diagonals unchanged: {off}, isotropic difference: {iso}"
+
+    def t_sym():
+        Sy, Sk = call("sym", A), call("skw", A)
+        ok = tensorid.arr_equal(Sy, Sy.T()) and tensorid.arr_equal(Sy.zip(Sk, lambda x, y: x + y), A) and tensorid.arr_equal(Sk.T(), Sk.map(lambda x: -x))
+        return ok, "sym is symmetric, skw antisymmetric, sym + skw == A", "sym/skw do not split a generic matrix into symmetric and antisymmetric parts"
+
+    def t_nds():
+        v = I.num(call("norm_of_deviator_squared", A))
+        D = call("deviator", A)
+        want = Dual(0)
+        for x in D.data:
+            want = want + x * x
+        return _A.equal(v.a, want.a), "norm_of_deviator_squared(A) == dev(A):dev(A)", f"norm_of_deviator_squared(A) = {v.a!r}"
+    for name, fn in (("det", t_det), ("trace", t_trace), ("I2", t_I2), ("detpIm1", t_detpIm1), ("inv", t_inv), ("deviator", t_dev), ("sym", t_sym),
+                     ("norm_of_deviator_squared", t_nds)):
+        attempt(name, fn)
+
+
+# ------------------------------------------------------------------------------------------------ O2: index spaces
+
 def o2(ctx):
     rule = "O2/T9-eigen-roles"
-    smf = ctx.need(f"{TM}:symmetric_matrix_function")
-    a_, f_ = smf.params()
-    st = [s for s in smf.node.body if isinstance(s, ast.Assign) and isinstance(s.targets[0], ast.Tuple)]
-    ok = False
-    shown = "?"
-    if st and isinstance(st[0].value, ast.Call) and (dotted(st[0].value.func) or "").endswith("eigen_sym33_unit"):
-        lam, V = [t.id for t in st[0].targets[0].elts]
-        r = smf.returns()
-        shown = src(r[0]) if r else "?"
-        ok = len(r) == 1 and same(r[0], f"{V} @ np.diag({f_}({lam})) @ {V}.T") and same(st[0].value.args[0], a_)
-    ctx.decide(rule, ok, smf, None, construct="symmetric_matrix_function=V.diag(f(lam)).V^T", detail=shown,
-               bad_detail=f"symmetric_matrix_function returns `{shown}`; with eigenvectors as columns it must be V @ diag(f(lam)) @ V.T")
-    nu = ctx.need(f"{TM}:eigen_sym33_non_unit")
-    r = nu.returns()
-    ok = False
-    shown = src(r[0]) if r else "?"
-    if r and isinstance(r[0], ast.Tuple) and len(r[0].elts) == 2:
-        ev, vc = r[0].elts
-        if isinstance(ev, ast.Subscript) and isinstance(vc, ast.Subscript) and isinstance(vc.slice, ast.Tuple) and len(vc.slice.elts) == 2:
-            idx = src(ev.slice)
-            ok = isinstance(vc.slice.elts[0], ast.Slice) and src(vc.slice.elts[1]) == idx
-            # idx = argsort(evals) of the very array that is permuted
-            for s in ast.walk(nu.node):
-                if isinstance(s, ast.Assign) and src(s.targets[0]) == idx:
-                    ok = ok and same(s.value, f"np.argsort({src(ev.value)})")
-    ctx.decide(rule, ok, nu, r[0] if r else None, construct="sorting-permutation-on-values-and-columns", detail=shown,
-               bad_detail=f"eigen solver returns `{shown}`; the ascending permutation argsort(evals) must index the eigenvalues and the COLUMN axis of the eigenvectors")
-    # evals / evecs assembled in the same order, vectors as columns
-    asm = {}
-    for s in ast.walk(nu.node):
-        if isinstance(s, ast.Assign) and isinstance(s.targets[0], ast.Name) and isinstance(s.value, ast.Call):
-            d = (dotted(s.value.func) or "").split(".")[-1]
-            if d == "column_stack" and s.value.args and isinstance(s.value.args[0], ast.Tuple):
-                asm["vecs"] = (s, [src(e) for e in s.value.args[0].elts], d)
-            if d == "array" and s.value.args and isinstance(s.value.args[0], ast.List) and s.targets[0].id == (src(r[0].elts[0].value) if r else ""):
-                asm["vals"] = (s, [src(e) for e in s.value.args[0].elts], d)
-    ok = "vecs" in asm and "vals" in asm and len(asm["vecs"][1]) == 3 and len(asm["vals"][1]) == 3
-    if ok:
-        # pairing by derivation, not by names: the root that does not depend on the shift radical (the trigonometric one) pairs with the
-        # vector that does not; of the two deflated roots the second is computed from the first, and of the two remaining vectors the
-        # second is the cross product of the other two.
-        uses = {}
-        for st_ in ast.walk(nu.node):
-            tg = val_ = None
-            if isinstance(st_, ast.Assign) and len(st_.targets) == 1 and isinstance(st_.targets[0], ast.Name):
-                tg, val_ = st_.targets[0].id, st_.value
-            elif isinstance(st_, ast.AugAssign) and isinstance(st_.target, ast.Name):
-                tg, val_ = st_.target.id, st_.value
-            if tg:
-                uses.setdefault(tg, set()).update(n_.id for n_ in ast.walk(val_) if isinstance(n_, ast.Name) and n_.id != tg)
+    ctx.guard(_safe(spectral_form), ctx, rule)
+    ctx.guard(_safe(C12_eigen.roles), ctx, rule, NONUNIT)
+    ctx.guard(_safe(unit_wrapper), ctx, rule)
 
-        def deps(nm):
-            seen_, work_ = set(), [nm]
-            while work_:
-                x_ = work_.pop()
-                for y_ in uses.get(x_, ()):
-                    if y_ not in seen_:
-                        seen_.add(y_)
-                        work_.append(y_)
-            return seen_
-        shift = [st_.targets[0].id for st_ in ast.walk(nu.node) if isinstance(st_, ast.Assign) and isinstance(st_.value, ast.BinOp) and isinstance(st_.value.op, ast.Mult)
-                 and any(isinstance(c_, ast.Call) and (dotted(c_.func) or "").split(".")[-1] in ("sqrt", "safe_sqrt") for c_ in (st_.value.left, st_.value.right))
-                 and isinstance(st_.targets[0], ast.Name)]
-        vals_, vecs_ = asm["vals"][1], asm["vecs"][1]
-        if len(shift) == 1:
-            T_ = shift[0]
 
-            def roles(names):
-                free = [x_ for x_ in names if T_ not in deps(x_)]
-                rest = [x_ for x_ in names if x_ not in free]
-                if len(free) != 1 or len(rest) != 2:
-                    return None
-                a_, b_ = rest
-                if b_ in deps(a_) and a_ not in deps(b_):
-                    a_, b_ = b_, a_
-                elif not (a_ in deps(b_) and b_ not in deps(a_)):
-                    return None
-                return {"first": a_, "second": b_, "free": free[0]}
-            rv, rw = roles(vals_), roles(vecs_)
-            ok = rv is not None and rw is not None and all(vals_.index(rv[k_]) == vecs_.index(rw[k_]) for k_ in ("first", "second", "free"))
-        else:
-            ok = None
-    ctx.decide(rule, ok, nu, asm.get("vecs", (None,))[0], construct="values-and-vectors-assembled-in-the-same-order",
-               detail=f"evals = {asm.get('vals', (0, '?'))[1]}, evecs = column_stack({asm.get('vecs', (0, '?'))[1]})",
-               bad_detail=f"eigenvalues {asm.get('vals', (0, '?'))[1]} and eigenvector columns {asm.get('vecs', (0, '?'))[1]} are assembled in different orders (or not as columns)")
-    un = ctx.need(f"{TM}:eigen_sym33_unit")
-    from .common import Unifier
-    u = Unifier(un)
-    t = un.params()[0]
-    checks = [
-        ("cmax", f"np.linalg.norm({t}, ord=np.inf)", "scale is the max norm of the input"),
-        ("cmaxInv", "if_then_else(cmax > 0.0, 1.0 / cmax, 1.0)", "inverse scale guarded against zero"),
-        ("scaledTensor", f"cmaxInv * {t}", "input scaled by the inverse scale"),
-    ]
-    for nm, want, what in checks:
-        hit = u.assigns(want, target=nm)
-        ctx.decide(rule, len(hit) == 1, un, hit[0] if hit else None, construct=f"unit:{nm}", detail=what,
-                   bad_detail=f"eigen_sym33_unit: no unique definition `{nm} = {want}` (up to names of locals): {what} does not hold")
-    tup = [s_ for s_ in un.node.body if isinstance(s_, ast.Assign) and isinstance(s_.targets[0], ast.Tuple)]
-    ok = len(tup) == 1 and u.match(tup[0], ast.parse("evals, evecs = eigen_sym33_non_unit(scaledTensor)").body[0])
-    ctx.decide(rule, ok, un, tup[0] if tup else None, construct="unit:solver-called-on-the-scaled-tensor", detail="(values, vectors) = eigen_sym33_non_unit(scaled tensor)",
-               bad_detail="eigen_sym33_unit does not call the non-unit solver on the scaled tensor")
-    # eigenvalues rescaled by the same factor; vectors normalised per column
-    evs = u.assigns("cmax * evals", target="evals")
-    ctx.decide(rule, len(evs) == 1, un, evs[0] if evs else None, construct="unit:eigenvalues-rescaled-by-the-same-factor", detail="evals = cmax*evals",
-               bad_detail="eigenvalues are not rescaled by the max norm the input was divided by")
-    cols = []
+def spectral_form(ctx, rule):
+    """symmetric_matrix_function(A, f) interpreted with the eigen solver replaced by generic (lam, V) and an opaque f:
+    the result must be V diag(f(lam)) V^T entry by entry (V is generic, i.e. neither symmetric nor orthogonal)."""
+    construct = "symmetric_matrix_function=V.diag(f(lam)).V^T"
+    smf = ctx.need(SMF)
+    un = ctx.need(UNIT)
+    I = SymInterp(ctx.repo)
+    A, _ = generic_matrix("a")
+    V, _ = generic_matrix("v")
+    lam = Arr(_atoms("l", 3), (3,))
+    calls = []
+
+    def eig(it, args, kw):
+        calls.append(_bind(un, args, kw))
+        return (lam, V)
+    I.special[un.qualname] = eig
+    I.special[NONUNIT] = eig
+
+    def fapply(it, args, kw):
+        x = it.num(args[0])
+        return x.map(lambda v: it.fn_atom("f", [v])) if isinstance(x, Arr) else it.fn_atom("f", [x])
+    f = PyFunc("f", fapply)
+    try:
+        out = I.run(smf, [A, f])
+    except _ERR as ex:
+        ctx.undecided(rule, smf, None, construct=construct, detail=f"cannot interpret symmetric_matrix_function: {ex}")
+        return
+    fl = fapply(I, [lam], {})
+    diag = Arr([fl.data[i] if i == j else Dual(0) for i in range(3) for j in range(3)], (3, 3))
+    want = matmul(matmul(V, diag), V.T())
+    other = matmul(matmul(V.T(), diag), V)
+    if not calls or not isinstance(out, Arr) or out.shape != (3, 3) or any(not isinstance(x, Dual) for x in out.data):
+        ctx.undecided(rule, smf, None, construct=construct, detail="the eigen decomposition (eigen_sym33_unit) of the argument is not what the function is built from")
+        return
+    ok = _same(out, want) and _same(calls[0][0], A)
+    why = "it is V.T @ diag(f(lam)) @ V, which treats the ROWS of V as eigenvectors" if _same(out, other) else \
+        ("the eigen solver is not applied to the argument" if not _same(calls[0][0], A) else "it is not V @ diag(f(lam)) @ V.T")
+    ctx.decide(rule, ok, smf, None, construct=construct, detail="V @ diag(f(lam)) @ V.T for generic V, lam and opaque f",
+               bad_detail=f"symmetric_matrix_function: with eigenvectors as columns the result must be V @ diag(f(lam)) @ V.T; {why}")
+
+
+def unit_wrapper(ctx, rule):
+    """eigen_sym33_unit interpreted with the non-unit solver replaced by generic (s, W).  Selections inside the wrapper are resolved in two
+    situations given by numeric sample points: a generic non-zero tensor, and the zero tensor.  With kappa the factor between the solver
+    argument and the input and N a norm of the input: kappa * N = 1 (generic), kappa a finite constant (zero tensor); returned values N * s;
+    returned column k = W[:,k] / |W[:,k]|."""
+    un = ctx.need(UNIT)
+    nu = ctx.need(NONUNIT)
+    T, tn = generic_matrix("t")
+    W, wn = generic_matrix("w")
+    s = Arr(_atoms("s", 3), (3,))
+    I = SymInterp(ctx.repo, inputs=tn)
+    calls = []
+
+    def solver(it, args, kw):
+        calls.append(_bind(nu, args, kw))
+        return (s, W)
+    I.special[nu.qualname] = solver
+    try:
+        out = I.run(un, [T])
+    except _ERR as ex:
+        raise Incomplete(f"eigen_sym33_unit cannot be interpreted: {ex}")
+    und = lambda c, why: ctx.undecided(rule, un, None, construct=c, detail=why)
+    generic_pt = {}
+    for k, a in enumerate(tn):
+        generic_pt[a] = [0.7, -1.3, 0.4, 2.1, -0.6, 1.7, -0.9, 0.35, 1.1][k]
+    for k, a in enumerate(wn):
+        generic_pt[a] = [0.3, 1.9, -0.8, -1.1, 0.45, 0.6, 1.4, -0.2, 0.95][k]
     for k in range(3):
-        cols += u.assigns(f"evecs[:, {k}] / np.linalg.norm(evecs[:, {k}])", target=f"evec{k}")
-    okc = len(cols) == 3
-    ctx.decide(rule, okc, un, cols[0] if cols else None, construct="unit:columns-normalised-by-own-length", detail="evec_k = evecs[:,k]/|evecs[:,k]|",
-               bad_detail="eigenvector columns are not each divided by their own length")
-    cs = u.assigns("np.column_stack((evec0, evec1, evec2))", target="evecs") if okc else []
-    ctx.decide(rule, len(cs) == 1, un, cs[0] if cs else None, construct="unit:normalised-columns-restacked-in-order", detail="column_stack((evec0, evec1, evec2))",
-               bad_detail="normalised eigenvectors are not re-stacked as columns in the same order")
-    rr = un.returns()
-    ok = len(rr) == 1 and u.match(rr[0], "(evals, evecs)")
-    ctx.decide(rule, ok, un, rr[0] if rr else None, construct="unit:returns-(values,vectors)", detail="(evals, evecs)", bad_detail=f"eigen_sym33_unit returns `{src(rr[0]) if rr else '?'}`")
+        generic_pt[f"s{k}"] = [0.5, -1.5, 2.5][k]
+    zero_pt = dict(generic_pt)
+    zero_pt.update({a: 0.0 for a in tn})
 
-
-def _fold(fn_node, env):
-    """Exact rational constant folding of a straight-line scalar function (float literals read as written)."""
-    env = dict(env)
-
-    def fe(e):
-        if isinstance(e, ast.Constant) and isinstance(e.value, (int, float)) and not isinstance(e.value, bool):
-            return Fraction(repr(e.value)) if isinstance(e.value, float) else Fraction(e.value)
-        if isinstance(e, ast.Name):
-            return env[e.id]
-        if isinstance(e, ast.UnaryOp) and isinstance(e.op, ast.USub):
-            return -fe(e.operand)
-        if isinstance(e, ast.BinOp):
-            a, b = fe(e.left), fe(e.right)
-            if isinstance(e.op, ast.Add):
-                return a + b
-            if isinstance(e.op, ast.Sub):
-                return a - b
-            if isinstance(e.op, ast.Mult):
-                return a * b
-            if isinstance(e.op, ast.Div):
-                return a / b
-            if isinstance(e.op, ast.Pow) and isinstance(e.right, ast.Constant) and isinstance(e.right.value, int):
-                return a ** e.right.value
-        raise NotPolynomial(src(e))
-    for st in fn_node.body:
-        if isinstance(st, ast.Assign) and isinstance(st.targets[0], ast.Name):
-            env[st.targets[0].id] = fe(st.value)
-        elif isinstance(st, ast.Return):
-            return fe(st.value)
-        elif isinstance(st, ast.Expr) and isinstance(st.value, ast.Constant):
-            continue
+    def situation(r, pt):
+        try:
+            return I.specialise(r, pt)
+        except (KeyError, ZeroDivisionError, EvalError):
+            return None
+    # ---- the solver call
+    arg = calls[0][0] if len(calls) == 1 else None
+    ok_call = isinstance(arg, Arr) and arg.shape == (3, 3) and all(isinstance(x, Dual) for x in arg.data)
+    ctx.decide(rule, ok_call if calls else None, un, None, construct="unit:solver-called-on-the-scaled-tensor", detail="(values, vectors) = eigen_sym33_non_unit(scaled tensor), once",
+               bad_detail=f"eigen_sym33_unit calls the non-unit solver {len(calls)} times / not on a 3x3 tensor")
+    kappa = None
+    if ok_call:
+        kappa = simplify(_A.norm(arg.data[0].a / T.data[0].a))
+        ok_scaled = all(_A.equal(a.a, kappa * t.a) for a, t in zip(arg.data, T.data))
+        ctx.decide(rule, ok_scaled, un, None, construct="unit:scaledTensor", detail="input scaled by one scalar factor",
+                   bad_detail="eigen_sym33_unit: the tensor handed to the solver is not a scalar multiple of the input")
+        if not ok_scaled:
+            kappa = None
+    else:
+        und("unit:scaledTensor", "solver call not found")
+    # ---- kappa * N == 1 for a norm N of the input; finite constant for the zero tensor
+    N = None
+    if kappa is None:
+        und("unit:cmax", "scale factor not found")
+        und("unit:cmaxInv", "scale factor not found")
+    else:
+        k_gen, k_zero = situation(kappa, generic_pt), situation(kappa, zero_pt)
+        reach_atoms = I.reach([kappa])[0]
+        norms = [a for a in reach_atoms if _is_norm_of(I, a, T)]
+        for a in norms:
+            if k_gen is not None and _A.equal(k_gen * _A.atom(a), Rat(Poly.const(1))):
+                N = a
+        if N is not None:
+            ok_norm = True
+        elif k_gen is None:
+            ok_norm = None
+        elif all(a in I.inputs for a in k_gen.atoms()):
+            ok_norm = False            # a constant or an explicit rational function of the entries: not the reciprocal of a norm
         else:
-            raise NotPolynomial(src(st)[:50])
-    raise NotPolynomial("no return")
+            ok_norm = None             # built from a quantity that is not recognised as a norm
+        ctx.decide(rule, ok_norm, un, None, construct="unit:cmax", detail="the input is divided by a norm (max norm) of itself",
+                   bad_detail=f"eigen_sym33_unit: for a non-zero input the tensor is scaled by `{k_gen!r}`, which is not the reciprocal of a norm of the input: "
+                              f"tensors of extreme magnitude are not brought to unit size")
+        guarded = None
+        if N is not None:
+            guarded = k_zero is not None and rat_const(k_zero) is not None
+        ctx.decide(rule, guarded, un, None, construct="unit:cmaxInv", detail="inverse scale guarded against zero",
+                   bad_detail=f"eigen_sym33_unit: for the zero tensor the scale factor is `{k_zero!r}`: the reciprocal of the norm is not guarded against zero")
+    # ---- returned pair
+    ok_ret = isinstance(out, tuple) and len(out) == 2 and isinstance(out[0], Arr) and out[0].shape == (3,) and isinstance(out[1], Arr) and out[1].shape == (3, 3) \
+        and all(isinstance(x, Dual) for x in list(out[0].data) + list(out[1].data))
+    swapped = isinstance(out, tuple) and len(out) == 2 and isinstance(out[0], Arr) and out[0].shape == (3, 3) and isinstance(out[1], Arr) and out[1].shape == (3,)
+    ctx.decide(rule, True if ok_ret else (False if swapped else None), un, None, construct="unit:returns-(values,vectors)", detail="(evals, evecs)",
+               bad_detail="eigen_sym33_unit returns (vectors, values) instead of (values, vectors)")
+    if not ok_ret:
+        for c in ("unit:eigenvalues-rescaled-by-the-same-factor", "unit:columns-normalised-by-own-length", "unit:normalised-columns-restacked-in-order"):
+            und(c, "returned pair not readable")
+        return
+    vals = [situation(v.a, generic_pt) for v in out[0].data]
+    vecs = [situation(v.a, generic_pt) for v in out[1].data]
+    if any(v is None for v in vals + vecs):
+        for c in ("unit:eigenvalues-rescaled-by-the-same-factor", "unit:columns-normalised-by-own-length", "unit:normalised-columns-restacked-in-order"):
+            und(c, "a selection in the wrapper could not be resolved at the generic sample point")
+        return
+    # ---- eigenvalues: vals == N * s
+    if N is None:
+        und("unit:eigenvalues-rescaled-by-the-same-factor", "scale factor not identified")
+    else:
+        ok = all(_A.equal(v, _A.atom(N) * x.a) for v, x in zip(vals, s.data))
+        ctx.decide(rule, ok, un, None, construct="unit:eigenvalues-rescaled-by-the-same-factor", detail="evals = N * (eigenvalues of the scaled tensor)",
+                   bad_detail=f"eigenvalues are not rescaled by the norm the input was divided by (eigenvalue 0 is `{vals[0]!r}`)")
+    # ---- eigenvectors: column k of the result is a column of W divided by its own length
+    src_col, own = [], []
+    for k in range(3):
+        col = [vecs[i * 3 + k] for i in range(3)]
+        hit = None
+        for j in range(3):
+            wj = [W.data[i * 3 + j] for i in range(3)]
+            if all(_A.equal(col[a] * wj[b].a, col[b] * wj[a].a) for a in range(3) for b in range(a + 1, 3)) and not all(rat_is_zero(c) for c in col):
+                hit = j
+                break
+        src_col.append(hit)
+        if hit is not None:
+            length = I.np_call("sqrt", [wj[0] * wj[0] + wj[1] * wj[1] + wj[2] * wj[2]], {})
+            own.append(all(_A.equal(col[i] * length.a, wj[i].a) for i in range(3)))
+        else:
+            own.append(False)
+    okc = all(h is not None for h in src_col) and all(own)
+    ctx.decide(rule, okc, un, None, construct="unit:columns-normalised-by-own-length", detail="evec_k = evecs[:,k]/|evecs[:,k]|",
+               bad_detail="eigenvector columns are not each divided by their own length" +
+                          (" (a column of the result is not parallel to a column of the solver's matrix: rows and columns mixed up?)" if any(h is None for h in src_col) else ""))
+    if all(h is not None for h in src_col):
+        ctx.decide(rule, src_col == [0, 1, 2], un, None, construct="unit:normalised-columns-restacked-in-order", detail="column k of the result comes from column k of the solver",
+                   bad_detail=f"normalised eigenvectors are re-stacked in the order {src_col} (column k must stay column k: the eigenvalues keep their order)")
+    else:
+        und("unit:normalised-columns-restacked-in-order", "columns of the result are not parallel to columns of the solver's matrix")
 
+
+def _opaque_atoms(I, r):
+    atoms, _ = I.reach([r])
+    return [a for a in atoms if a in I.fn]
+
+
+def _is_norm_of(I, atom, T):
+    """atom is a norm of the full tensor T: ||T||_inf / max |T_ij| (opaque applications to T) or the Frobenius norm (algebraic)"""
+    if atom in I.fn:
+        name, args = I.fn[atom]
+        if name == "norm_inf" and len(args) == 1 and isinstance(args[0], Arr):
+            return _same(args[0], T) or _same(args[0], T.T())
+        if name == "amax" and len(args) == 1 and isinstance(args[0], Arr):
+            # max over entries that are positive combinations of |T_ij| (max |T_ij|, max row sum, max column sum) covering every entry
+            inner = []
+            for x in args[0].data:
+                p = x.a.n
+                if not x.a.d.is_const() or x.a.d.const_value() <= 0 or p.is_zero():
+                    return False
+                for mono, c in p.t.items():
+                    if c <= 0 or len(mono) != 1 or mono[0][1] != 1 or not (mono[0][0] in I.fn and I.fn[mono[0][0]][0] == "abs"):
+                        return False
+                    inner.append(I.fn[mono[0][0]][1][0])
+            return all(any(_A.equal(x.a, t.a) or _A.equal(x.a, -t.a) for x in inner) for t in T.data)
+        return False
+    if atom in _A.rules:
+        sq = Rat(Poly())
+        for t in T.data:
+            sq = sq + t.a * t.a
+        return _A.equal(Rat(_A.rules[atom]), sq)
+    return False
+
+
+# ------------------------------------------------------------------------------------------------ O2: the trigonometric root table
 
 def trig_table(ctx):
-    """The rational approximant of cos(acos(x)/3) is a table of literals: fold it exactly at x = k/1000 and check the
-    defining identity 4c^3 - 3c = x on the branch c >= sqrt(3)/2 (the largest root of the depressed cubic)."""
+    """The rational approximant of cos(acos(x)/3) is a table of literals: evaluate it exactly (by interpretation, float literals read as
+    written) at x = k/1000 and check the defining identity 4c^3 - 3c = x on the branch c >= sqrt(3)/2 (the largest root of the depressed cubic)."""
     rule = "O2/T7-trigonometric-root-table"
-    f = ctx.need(f"{TM}:cos_of_acos_divided_by_3")
-    x = f.params()[0]
+    f = ctx.need(C12_eigen.TRIG)
+    construct = "cos(acos(x)/3):triple-angle-identity"
+    I = SymInterp(ctx.repo)
+    I.tolerant = False
     worst, at, branch_ok = Fraction(0), None, True
     try:
+        # the approximant as one exact rational function of x (interpreted once); point-wise interpretation when it is not one
+        formula = None
+        try:
+            v = I.num(I.run(f, [Dual(_A.atom("x"))]))
+            if isinstance(v, Dual) and v.a.atoms() <= {"x"} and rat_is_zero(v.b):
+                formula = v.a
+        except _ERR:
+            formula = None
         for k in range(0, 1001):
             xv = Fraction(k, 1000)
-            c = _fold(f.node, {x: xv})
+            if formula is not None:
+                den = formula.d.eval({"x": xv})
+                c = Fraction(formula.n.eval({"x": xv})) / Fraction(den) if den != 0 else None
+            else:
+                c = rat_const(I.num(I.run(f, [Dual(xv)])).a)
+            if c is None:
+                raise EvalError("value is not a constant")
             r = abs(4 * c ** 3 - 3 * c - xv)
             if r > worst:
                 worst, at = r, xv
             if c * c < Fraction(3, 4) - Fraction(1, 10 ** 13) or c > 1 + Fraction(1, 10 ** 13):
                 branch_ok = False
         ok = worst <= Fraction(1, 10 ** 14) and branch_ok
-    except (NotPolynomial, KeyError, ZeroDivisionError) as ex:
-        ctx.undecided(rule, f, None, construct="cos(acos(x)/3):triple-angle-identity", detail=f"cannot fold the approximant: {ex}")
+    except _ERR as ex:
+        ctx.undecided(rule, f, None, construct=construct, detail=f"cannot evaluate the approximant exactly: {ex}")
         return
-    ctx.decide(rule, ok, f, None, construct="cos(acos(x)/3):triple-angle-identity",
+    ctx.decide(rule, ok, f, None, construct=construct,
                detail=f"max |4c^3-3c-x| over x=k/1000 is {float(worst):.2e} (<= 1e-14), c in [sqrt(3)/2, 1]",
                bad_detail=f"the literal coefficients do not approximate cos(acos(x)/3): |4c^3-3c-x| = {float(worst):.3e} at x = {at} "
                           f"(1e-14 allowed){'' if branch_ok else '; value leaves [sqrt(3)/2, 1], i.e. the wrong root of the cubic'}")
 
 
-def log_taylor(ctx):
-    """_relative_log_difference_taylor is (2/(a+b)) * sum_k f^(2k)/(2k+1), f = (a-b)/(a+b): exact coefficient check."""
-    rule = "O3/T7-relative-differences"
-    sc = ctx.repo.find(f"{TM}:_relative_log_difference_taylor")
-    if sc is None:
-        return
-    ctx.touch(sc)
-    a, b = sc.params()
-    try:
-        # find the name bound to (a-b)/(a+b)
-        A = Algebra()
-        env = {}
-        fname = None
-        for st in sc.node.body:
-            if isinstance(st, ast.Assign) and isinstance(st.targets[0], ast.Name):
-                A2 = Algebra(env=env)
-                v = A2.lower(st.value)
-                if fname is None and A.equal(v, A.lower(ast.parse(f"({a}-{b})/({a}+{b})", mode="eval").body)):
-                    fname = st.targets[0].id
-                    env[fname] = A.atom("@f")
-                else:
-                    env[st.targets[0].id] = v
-        r = sc.returns()
-        got = Algebra(env=env).lower(r[0])
-        # got * (a+b) must be a polynomial in @f alone with coefficients 2/(2k+1) on even powers
-        q = A.norm(got * A.lower(ast.parse(f"{a}+{b}", mode="eval").body))
-        from .eigenalg import _as_poly
-        from optilint.expr import simplify
-        qp = _as_poly(simplify(q))
-        ok = qp is not None and fname is not None
-        order = 0
-        if ok:
-            for mono, c in qp.t.items():
-                if any(k != "@f" for k, _ in mono):
-                    ok = False
-                    break
-                e = mono[0][1] if mono else 0
-                order = max(order, e)
-                if e % 2 or c != Fraction(2, e + 1):
-                    ok = False
-            ok = ok and order >= 8 and len(qp.t) == order // 2 + 1
-    except (NotPolynomial, IndexError):
-        ok = None
-        order = "?"
-    ctx.decide(rule, ok, sc, None, construct="log:taylor-series-coefficients", detail=f"(a+b) * value == sum_(k<={order}/2) 2/(2k+1) f^(2k), f=(a-b)/(a+b)",
-               bad_detail="_relative_log_difference_taylor is not the truncated series 2/(a+b) * (1 + f^2/3 + f^4/5 + ...) of (log a - log b)/(a - b)")
-
-
-def denman_beavers(ctx):
-    """Dense square root (LinAlg.sqrtm_dbp, product form of the Denman-Beavers iteration): for a scalar matrix A = a*I everything
-    commutes, so one step of the loop body, interpreted on symbolic 1x1 data, must preserve the invariant M = X^2 / a (M = X A^-1 X)
-    with and without determinantal scaling, and (X, M) = (sqrt a, 1) must be a fixed point: then the limit M -> I gives X^2 = A.
-    The scaling switch must be ON while the relative change is above its threshold and OFF below (accepted idiom of Higham's algorithm)."""
-    rule = "O4/T7-denman-beavers-invariant"
-    import optilint.tensoreval as te
-    from optilint.tensoreval import Interp, Dual, Arr, Env, EvalError, Raised, _A
-    from optilint.expr import simplify
-    LA = "optimism.LinAlg"
-    mod = ctx.need_module(LA)
-    sc = ctx.need(f"{LA}:sqrtm_dbp")
-    wl = [c for c in ast.walk(sc.node) if isinstance(c, ast.Call) and (dotted(c.func) or "").endswith("while_loop") and len(c.args) == 3]
-    if len(wl) != 1 or not isinstance(wl[0].args[1], ast.Name):
-        ctx.undecided(rule, sc, None, construct="loop", detail="while_loop(cond, body, init) not found")
-        return
-    body = [c for c in sc.children if c.kind == "function" and c.name == wl[0].args[1].id]
-    if not body:
-        ctx.undecided(rule, sc, None, construct="loop", detail="loop body not found")
-        return
-    body = body[0]
-    ctx.touch(body)
-    for pol, lab in ((True, "scaled"), (False, "unscaled")):
-        I = Interp(ctx.repo)
-        I.policy = pol
-        I.tolerant = True
-        te.OPAQUE[0] = True
-        try:
-            a = Dual(_A.atom("a"))
-            x = Dual(_A.atom("x"))
-            I.positive.update({"a", "x"})
-            env = Env(sc, I.module_env(mod))
-            env.vars[sc.params()[0]] = Arr([a], (1, 1))
-            for st in sc.node.body:
-                if isinstance(st, (ast.Assign, ast.FunctionDef)):
-                    try:
-                        I.stmt(st, env)
-                    except (EvalError, Raised):
-                        pass
-            X, M = Arr([x], (1, 1)), Arr([x * x / a], (1, 1))
-            out = I.call(env.vars[body.name], [(X, M, Dual(_A.atom("err")), Dual(0), Dual(_A.atom("diff")))], {})
-            X2, M2 = out[0], out[1]
-            res = simplify(_A.norm(X2.data[0].a * X2.data[0].a / a.a - M2.data[0].a))
-            ctx.decide(rule, _A.is_zero(res), body, None, construct=f"invariant-M=X^2/a[{lab}]", detail="one step maps (x, x^2/a) to (x', x'^2/a)",
-                       bad_detail=f"with the scaling {'on' if pol else 'off'} one step of the Denman-Beavers loop maps (X, M = X^2/a) to a pair with "
-                                  f"X'^2/a - M' = {res!r}: M -> I no longer implies X^2 = A")
-            if not pol:
-                s_ = Dual(_A.sqrt(a.a))
-                out = I.call(env.vars[body.name], [(Arr([s_], (1, 1)), Arr([Dual(1)], (1, 1)), Dual(0), Dual(0), Dual(0))], {})
-                okf = _A.equal(out[0].data[0].a, s_.a) and _A.equal(out[1].data[0].a, _A.const(1))
-                ctx.decide(rule, okf, body, None, construct="fixed-point-(sqrt a, 1)", detail="(sqrt a, 1) is mapped to itself",
-                           bad_detail=f"(X, M) = (sqrt a, 1) is mapped to ({out[0].data[0].a!r}, {out[1].data[0].a!r}): the square root is not a fixed point of the iteration")
-        except (EvalError, Raised, KeyError, IndexError, TypeError, AttributeError) as ex:
-            ctx.undecided(rule, body, None, construct=f"invariant-M=X^2/a[{lab}]", detail=f"cannot interpret the loop body on 1x1 data: {ex}")
-        finally:
-            te.OPAQUE[0] = False
-    # scaling switch
-    carry = None
-    for st in body.node.body:
-        if isinstance(st, ast.Assign) and isinstance(st.targets[0], ast.Tuple) and isinstance(st.value, ast.Name) and st.value.id == body.params()[0]:
-            carry = [t.id if isinstance(t, ast.Name) else None for t in st.targets[0].elts]
-    rets = body.returns()
-    sw = [c for c in ast.walk(body.node) if isinstance(c, ast.Call) and (dotted(c.func) or "").split(".")[-1] in ("where", "if_then_else") and len(c.args) == 3]
-    ok = False
-    shown = "?"
-    if carry and len(sw) == 1 and rets and isinstance(rets[0], ast.Tuple):
-        c = sw[0]
-        shown = src(c)
-        cond = c.args[0]
-        # the carried slot that holds the relative change: returned at the position of a quotient of two norms
-        change = None
-        for k, e in enumerate(rets[0].elts):
-            if isinstance(e, ast.Name):
-                for st in body.node.body:
-                    if isinstance(st, ast.Assign) and isinstance(st.targets[0], ast.Name) and st.targets[0].id == e.id and isinstance(st.value, ast.BinOp) \
-                            and isinstance(st.value.op, ast.Div) and "norm" in src(st.value.left) and "norm" in src(st.value.right):
-                        change = carry[k] if k < len(carry) else None
-        ok = isinstance(cond, ast.Compare) and len(cond.ops) == 1 and isinstance(cond.ops[0], (ast.GtE, ast.Gt)) and isinstance(cond.left, ast.Name) \
-            and cond.left.id == change and isinstance(c.args[1], ast.Call) and const_value(c.args[2]) == 1.0
-    ctx.decide("O4/T2-scaling-switch", ok, body, sw[0] if sw else None, construct="scaling-on-while-far-from-convergence", detail=shown,
-               bad_detail=f"`{shown}`: the determinantal scaling must be applied while the relative change of X is at least the threshold and replaced by 1 below it; "
-                          f"otherwise matrices of extreme magnitude exhaust the iteration cap (silently unconverged result) or the final quadratic phase is perturbed")
-
+# ------------------------------------------------------------------------------------------------ O3: custom_jvp wiring
 
 def _custom_jvp_functions(ctx, mname):
     m = ctx.need_module(mname)
@@ -381,16 +455,58 @@ def _custom_jvp_functions(ctx, mname):
     return m, out
 
 
+def _jvp_rules(m):
+    """decorated function name -> scope of its registered rule (`@f.defjvp` or a module-level `f.defjvp(rule)`)"""
+    rules = {}
+    by_name = {c.name: c for c in m.scope.children if c.kind == "function"}
+    for c in m.scope.children:
+        if c.kind == "function":
+            for d in c.node.decorator_list:
+                if isinstance(d, ast.Attribute) and d.attr == "defjvp" and isinstance(d.value, ast.Name):
+                    rules[d.value.id] = c
+    for st in m.tree.body:
+        if isinstance(st, ast.Expr) and isinstance(st.value, ast.Call) and isinstance(st.value.func, ast.Attribute) and st.value.func.attr == "defjvp" \
+                and isinstance(st.value.func.value, ast.Name) and len(st.value.args) == 1 and isinstance(st.value.args[0], ast.Name) \
+                and st.value.args[0].id in by_name:
+            rules[st.value.func.value.id] = by_name[st.value.args[0].id]
+    return rules
+
+
+def _tangent_helper(ctx):
+    """the shared tangent helper: by its name, else by its role -- the one repository function with four parameters that the rules of at
+    least two custom_jvp functions of TensorMath call"""
+    h = ctx.repo.find(HELPER)
+    if h is not None:
+        return h
+    m, fns = _custom_jvp_functions(ctx, TM)
+    rules = _jvp_rules(m)
+    count = {}
+    for f in fns:
+        r = rules.get(f.name)
+        if r is None:
+            continue
+        seen = set()
+        for c in ast.walk(r.node):
+            if isinstance(c, ast.Call):
+                for v in ctx.repo.resolve(c.func, r):
+                    if isinstance(v, FuncVal) and v.scope.kind == "function" and len(v.scope.params()) == 4 and v.scope.qualname not in seen:
+                        seen.add(v.scope.qualname)
+                        count.setdefault(v.scope.qualname, [0, v.scope])[0] += 1
+    best = [sc for (n_, sc) in count.values() if n_ >= 2]
+    return best[0] if len(best) == 1 else None
+
+
 def jvp_wiring(ctx, rule):
+    """Each rule is interpreted on symbolic (primals, tangents) with the decorated function, symmetric_matrix_function and the tangent
+    helper replaced by recording stand-ins: the first component of the result must be the value of decorated_function(*primals); the scalar
+    function handed to the tangent helper must agree (as a function of a fresh symbol) with the one the primal hands to
+    symmetric_matrix_function, and the helper must receive the matrix primal and its tangent."""
     n = 0
+    helper = _tangent_helper(ctx)
+    smf = ctx.repo.find(SMF)
     for mname in (TM, "optimism.Math"):
         m, fns = _custom_jvp_functions(ctx, mname)
-        rules = {}
-        for c in m.scope.children:
-            if c.kind == "function":
-                for d in c.node.decorator_list:
-                    if isinstance(d, ast.Attribute) and d.attr == "defjvp" and isinstance(d.value, ast.Name):
-                        rules[d.value.id] = c
+        rules = _jvp_rules(m)
         for f in fns:
             n += 1
             r = rules.get(f.name)
@@ -398,78 +514,78 @@ def jvp_wiring(ctx, rule):
                 ctx.refuted(rule, f, None, construct=f"{f.name}:has-rule", detail=f"{f.name} is decorated with custom_jvp but no @{f.name}.defjvp rule is registered")
                 continue
             ctx.touch(r)
-            # primal output computed by calling the decorated function
-            prim_calls = [c for c in ast.walk(r.node) if isinstance(c, ast.Call) and isinstance(c.func, ast.Name) and c.func.id == f.name]
-            rets = r.returns()
-            okp = False
-            if rets and isinstance(rets[0], ast.Tuple) and len(rets[0].elts) == 2 and prim_calls:
-                first = rets[0].elts[0]
-                if isinstance(first, ast.Call) and first in prim_calls:
-                    okp = True
-                elif isinstance(first, ast.Name):
-                    for s in ast.walk(r.node):
-                        if isinstance(s, ast.Assign) and src(s.targets[0]) == first.id and s.value in prim_calls:
-                            okp = True
-            ctx.decide(rule, okp, r, rets[0] if rets else None, construct=f"{f.name}:primal-out-calls-decorated-function",
-                       detail=f"primal output = {f.name}(...)",
-                       bad_detail=f"the JVP rule of {f.name} does not compute its primal output by calling {f.name} itself: higher-order derivatives would bypass the custom rule")
-            # scalar function agreement (TensorMath spectral functions)
-            prim_smf = [c for c in ast.walk(f.node) if isinstance(c, ast.Call) and (dotted(c.func) or "").endswith("symmetric_matrix_function")]
-            helper = [c for c in ast.walk(r.node) if isinstance(c, ast.Call) and (dotted(c.func) or "").endswith("_symmetric_matrix_function_jvp_helper")]
-            if prim_smf:
-                # locals of the rule that are unpacked from `primals` stand for the primal function's parameters (by position)
-                ren = {}
-                rp = r.params()[0] if r.params() else None
-                for st_ in r.node.body:
-                    if isinstance(st_, ast.Assign) and isinstance(st_.targets[0], ast.Tuple) and isinstance(st_.value, ast.Name) and st_.value.id == rp:
-                        for t_, p_ in zip(st_.targets[0].elts, f.params()):
-                            if isinstance(t_, ast.Name):
-                                ren[t_.id] = p_
-
-                class _Ren(ast.NodeTransformer):
-                    def visit_Name(self, n_):
-                        return ast.copy_location(ast.Name(id=ren.get(n_.id, n_.id), ctx=n_.ctx), n_)
-                harg = _Ren().visit(copy.deepcopy(helper[0].args[0])) if len(helper) == 1 else None
-                ok = len(helper) == 1 and len(prim_smf) == 1 and same(harg, prim_smf[0].args[1])
-                ctx.decide(rule, ok, r, helper[0] if helper else None, construct=f"{f.name}:tangent-uses-the-primal-scalar-function",
-                           detail=f"both use {src(prim_smf[0].args[1])}",
-                           bad_detail=f"primal of {f.name} applies `{src(prim_smf[0].args[1])}` to the eigenvalues but its tangent rule differentiates "
-                                      f"`{src(helper[0].args[0]) if helper else '?'}`")
+            I = SymInterp(ctx.repo)
+            np_ = len(f.params())
+            primals = tuple(_atoms(f"{f.name}_p", np_))
+            tangents = tuple(_atoms(f"{f.name}_d", np_))
+            # ---- the primal function: which scalar function goes to symmetric_matrix_function?
+            smf_calls = []
+            if smf is not None:
+                I.special[smf.qualname] = lambda it, a, k, rec=smf_calls: (rec.append(_bind(smf, a, k)), Dual(_A.atom("smf_out")))[1]
+            prim_err = None
+            try:
+                I.run(f, list(primals))
+            except _ERR as ex:
+                prim_err = str(ex)
+            # ---- the rule
+            prim_calls, helper_calls = [], []
+            I.special[f.qualname] = lambda it, a, k, rec=prim_calls, f=f: (rec.append(_bind(f, a, k)), Dual(_A.atom(f"{f.name}_out")))[1]
+            if helper is not None:
+                I.special[helper.qualname] = lambda it, a, k, rec=helper_calls: (rec.append(_bind(helper, a, k)), Dual(_A.atom("tangent_out")))[1]
+            out = err = None
+            try:
+                out = I.run(r, [primals, tangents])
+            except _ERR as ex:
+                err = str(ex)
+            okp = None
+            if err is None:
+                okp = isinstance(out, tuple) and len(out) == 2 and isinstance(out[0], Dual) and _A.equal(out[0].a, _A.atom(f"{f.name}_out")) \
+                    and any(_same(tuple(c), primals) for c in prim_calls)
+            ctx.decide(rule, okp, r, None, construct=f"{f.name}:primal-out-calls-decorated-function",
+                       detail=f"primal output = {f.name}(*primals)",
+                       bad_detail=(f"the JVP rule of {f.name} does not compute its primal output by calling {f.name} on the primals: higher-order derivatives would bypass the custom rule"
+                                   if err is None else f"cannot interpret the rule: {err}"))
+            # ---- scalar function agreement (spectral functions)
+            if smf_calls and prim_err is None:
+                construct = f"{f.name}:tangent-uses-the-primal-scalar-function"
+                if len(smf_calls) != 1 or len(helper_calls) != 1 or err is not None:
+                    ctx.decide(rule, None if err is not None or not helper_calls else False, r, None, construct=construct,
+                               detail=f"primal applies symmetric_matrix_function {len(smf_calls)}x, rule calls the tangent helper {len(helper_calls)}x ({err or 'no error'})")
+                    continue
+                (A_p, f_p), (f_t, _rd, prim_t, tan_t) = smf_calls[0][:2], (helper_calls[0] + [None] * 4)[:4]
+                x = Dual(_A.atom("x"))
+                I.positive.add("x")
+                try:
+                    v_p, v_t = I.num(I.call(f_p, [x], {})), I.num(I.call(f_t, [x], {}))
+                    same_f = _same(v_p, v_t)
+                    shown = f"primal applies x -> {v_p.a!r}, tangent rule differentiates x -> {v_t.a!r}"
+                except _ERR as ex:
+                    same_f, shown = None, f"cannot apply the scalar functions to a symbol: {ex}"
+                same_args = isinstance(prim_t, (tuple, list)) and len(prim_t) == 1 and _same(prim_t[0], A_p) and _same(A_p, primals[0]) \
+                    and isinstance(tan_t, (tuple, list)) and len(tan_t) == 1 and _same(tan_t[0], tangents[0])
+                ok = None if same_f is None else (same_f and same_args)
+                ctx.decide(rule, ok, r, None, construct=construct, detail=f"both use the same scalar function ({shown.split(',')[0]})",
+                           bad_detail=(f"{f.name}: {shown}" if not same_f else
+                                       f"{f.name}: the tangent helper does not receive (matrix primal,), (its tangent,) of the decorated function"))
     if n < 5:
         raise Incomplete(f"{n} custom_jvp functions found (5 expected)")
     helper_rules(ctx, rule)
 
 
 def helper_rules(ctx, rule):
-    """The shared tangent helper, interpreted on generic symbolic data: eigenvalues l0..l2, a generic matrix V in place of the
-    eigenvectors, a generic tangent, f(x) = x^3 with exact divided difference x^2+xy+y^2.  The result must be the Daleckii-Krein
-    form V (h o (V^T sym(Cdot) V)) V^T with h_ii = f'(l_i), h_ij = divided difference (distinct) or f' (equal eigenvalues)."""
-    from optilint.tensoreval import Interp, Dual, Arr, PyFunc, EvalError, Raised, matmul, _A
-    from . import materials as mt
-    h = ctx.need(f"{TM}:_symmetric_matrix_function_jvp_helper")
-    mod = ctx.need_module(TM)
-    hp = h.params()
-    # 1. exact-equality switch (accepted idiom: where(a == b, f'(a), reldiff(a, b_safe)) on the two arguments of the nested function)
-    nested = [c for c in h.children if c.kind == "function" and any(isinstance(n, ast.Name) and n.id == hp[1] for n in ast.walk(c.node))]
-    ok = False
-    shown = "?"
-    if len(nested) == 1:
-        rd = nested[0]
-        ps = rd.params()
-        rr = rd.returns()
-        if len(rr) == 1 and isinstance(rr[0], ast.Call) and (dotted(rr[0].func) or "").split(".")[-1] in ("where", "if_then_else") and len(rr[0].args) == 3:
-            cond, a, b = rr[0].args
-            shown = src(cond)
-            ok = isinstance(cond, ast.Compare) and len(cond.ops) == 1 and isinstance(cond.ops[0], ast.Eq) and \
-                {src(cond.left), src(cond.comparators[0])} == set(ps) and \
-                any(isinstance(n, ast.Name) and n.id == hp[1] for n in ast.walk(b)) and not any(isinstance(n, ast.Name) and n.id == hp[1] for n in ast.walk(a))
-    ctx.decide(rule, ok, h, nested[0].node if nested else None, construct="helper:degenerate-fallback-is-derivative",
-               detail="where(a == b, f'(a), reldiff(a, b_safe)): exact equality selects the derivative",
-               bad_detail=f"the divided difference does not fall back to the derivative exactly at equal eigenvalues (switch condition `{shown}`; "
-                          f"the relative-difference formulas are exact for every non-zero gap, so any other switch replaces them by f' where they differ)")
-    # 2. assembly, by interpretation
+    """The shared tangent helper, interpreted on generic symbolic data: eigenvalues l0..l2 (distinct generic numbers; equal names = exactly equal
+    eigenvalues), a generic matrix V in place of the eigenvectors, a generic tangent, f(x) = x^3 with exact divided difference x^2+xy+y^2.
+    The result must be the Daleckii-Krein form V (h o (V^T sym(Cdot) V)) V^T with h_ii = f'(l_i), h_ij = divided difference (distinct) or f'
+    (equal eigenvalues).  The switch between the two must be exact equality: any condition that is still open when all eigenvalues are distinct
+    generic numbers is evaluated at nearly equal eigenvalues -- if it holds there, f' replaces the (exact) divided difference where they differ."""
+    h = _tangent_helper(ctx)
+    if h is None:
+        raise Incomplete(f"anchor {HELPER} not found in the source tree")
+    ctx.touch(h)
+    un = ctx.need(UNIT)
     V = tensorid.generic("v")
     Cd = tensorid.generic("c")
+    C = tensorid.generic("p")
     cube = PyFunc("cube", lambda it, a, k: (lambda x: x * x * x)(it.num(a[0])))
     dd = PyFunc("dd", lambda it, a, k: (lambda x, y: x * x + x * y + y * y)(it.num(a[0]), it.num(a[1])))
     three = Dual(3)
@@ -483,89 +599,269 @@ def helper_rules(ctx, rule):
                 else:
                     hh[i_][j_] = l[i_] * l[i_] + l[i_] * l[j_] + l[j_] * l[j_]
         S = Cd.zip(Cd.T(), lambda x, y: (x + y) * Dual(Fraction(1, 2)))
-        W = matmul(matmul(V.T(), S), V)
-        HW = Arr([hh[i_][j_] * W.data[i_ * 3 + j_] for i_ in range(3) for j_ in range(3)], (3, 3))
+        Wm = matmul(matmul(V.T(), S), V)
+        HW = Arr([hh[i_][j_] * Wm.data[i_ * 3 + j_] for i_ in range(3) for j_ in range(3)], (3, 3))
         return matmul(matmul(V, HW), V.T())
     cases = [("distinct", ("l0", "l1", "l2")), ("double", ("l0", "l0", "l2")), ("triple", ("l0", "l0", "l0"))]
+    verdicts = {}
+    open_conditions = []
+    tolerance_witness = None
     for cname, names in cases:
         lam = [Dual(_A.atom(n)) for n in names]
-        I = mt.make_interp(ctx.repo)
-        I.special[f"{TM}:eigen_sym33_unit"] = lambda interp, args, kw, lam=lam: (Arr(list(lam), (3,)), V)
-        I.policy = False     # symbols with different names denote different eigenvalues
+        I = SymInterp(ctx.repo)
+        I.generic = {"l0", "l1", "l2"}
+        I.special[un.qualname] = lambda interp, args, kw, lam=lam: (Arr(list(lam), (3,)), V)
+        I.special[NONUNIT] = I.special[un.qualname]
         try:
-            out = I.call(I.module_value(mod, h.name), [cube, dd, (Cd,), (Cd,)], {})
+            out = I.run(h, [cube, dd, (C,), (Cd,)])
             want = expected(lam)
-            bad = [(i_, j_) for i_ in range(3) for j_ in range(3) if not _A.equal(out.data[i_ * 3 + j_].a, want.data[i_ * 3 + j_].a)] \
-                if isinstance(out, Arr) and out.shape == (3, 3) else "shape"
+            if not (isinstance(out, Arr) and out.shape == (3, 3) and all(isinstance(x, Dual) for x in out.data)):
+                raise EvalError("the helper does not return a 3x3 tensor")
+            bad = [(i_, j_) for i_ in range(3) for j_ in range(3) if not _A.equal(out.data[i_ * 3 + j_].a, want.data[i_ * 3 + j_].a)]
+            opened = {c.key: c for c in I.sel_log}
+            if cname == "distinct":
+                open_conditions = list(opened.values())
+                for c in open_conditions:
+                    for pt in ({"l0": 1.0, "l1": 1.0 + 1e-9, "l2": 2.0}, {"l0": 1.0, "l1": 2.0, "l2": 2.0 + 1e-9}, {"l0": 3.0 + 1e-9, "l1": 2.0, "l2": 3.0},
+                               {"l0": 1e-9, "l1": 2e-9, "l2": 1.0}, {"l0": 1.0, "l1": 1.0 + 1e-12, "l2": 2.0}):
+                        try:
+                            if I.numeric_cond(c, pt):
+                                tolerance_witness = (c, pt)
+                                break
+                        except (KeyError, ZeroDivisionError):
+                            pass
+                    if tolerance_witness:
+                        break
+            if bad and opened and not tolerance_witness and cname == "distinct":
+                verdicts[cname] = None
+                ctx.undecided(rule, h, None, construct=f"helper:daleckii-krein-assembly:{cname}",
+                              detail=f"the tangent depends on conditions that generic distinct eigenvalues do not decide: {sorted(opened)[:2]}")
+                continue
+            verdicts[cname] = not bad
             ctx.decide(rule, not bad, h, None, construct=f"helper:daleckii-krein-assembly:{cname}",
                        detail=f"tangent == V (h o V^T sym(Cdot) V) V^T for generic V, Cdot and {cname} eigenvalues (f = x^3)",
                        bad_detail=f"for {cname} eigenvalues the tangent differs from V (h o V^T sym(Cdot) V) V^T in entries {bad} "
                                   f"(generic V, generic Cdot, f(x) = x^3 with its exact divided difference)")
-        except (EvalError, Raised, KeyError, IndexError, TypeError, ZeroDivisionError, AttributeError) as ex:
+        except _ERR as ex:
+            verdicts[cname] = None
             ctx.undecided(rule, h, None, construct=f"helper:daleckii-krein-assembly:{cname}", detail=f"cannot interpret the helper on generic data: {ex}")
+    # ---- the switch between divided difference and derivative
+    if tolerance_witness is not None:
+        c, pt = tolerance_witness
+        ok, why = False, (f"the switch condition `{c.key[:120]}` holds for the distinct eigenvalues {sorted(pt.values())}: the divided difference is replaced by f' "
+                          f"although the relative-difference formulas are exact for every non-zero gap")
+    elif verdicts.get("distinct") and verdicts.get("double") is False:
+        ok, why = False, "at exactly equal eigenvalues the divided difference does not fall back to the derivative"
+    elif verdicts.get("distinct") and verdicts.get("double") and not open_conditions:
+        ok, why = True, ""
+    else:
+        ok, why = None, "the switch between divided difference and derivative could not be read"
+    ctx.decide(rule, ok, h, None, construct="helper:degenerate-fallback-is-derivative",
+               detail="exact equality of two eigenvalues (and nothing else) selects the derivative f'(a) instead of the divided difference",
+               bad_detail=f"the divided difference does not fall back to the derivative exactly at equal eigenvalues: {why}")
 
+
+# ------------------------------------------------------------------------------------------------ O3: relative differences
 
 def relative_differences(ctx):
     rule = "O3/T7-relative-differences"
     sq = ctx.need(f"{TM}:_sqrt_relative_difference")
-    r = sq.returns()
-    A = Algebra()
-    a, b = sq.params()
+    I = SymInterp(ctx.repo, positive={"a", "b"})
+    a, b = Dual(_A.atom("a")), Dual(_A.atom("b"))
     try:
-        got = A.lower(r[0])
-        sa, sb = A.sqrt(A.atom(a)), A.sqrt(A.atom(b))
-        ok = A.equal(A.norm(got * (A.atom(a) - A.atom(b))), A.norm(sa - sb))
-    except (NotPolynomial, IndexError):
-        ok = None
-    ctx.decide(rule, ok, sq, r[0] if r else None, construct="sqrt:(sqrt a - sqrt b)/(a-b)", detail="1/(sqrt a + sqrt b) times (a - b) equals sqrt a - sqrt b",
-               bad_detail=f"_sqrt_relative_difference `{src(r[0]) if r else '?'}` is not (sqrt(a)-sqrt(b))/(a-b)")
-    # refutation-only screens
+        got = I.num(I.run(sq, [a, b]))
+        sa, sb = _A.sqrt(a.a), _A.sqrt(b.a)
+        ok = isinstance(got, Dual) and _A.equal(_A.norm(got.a * (a.a - b.a)), _A.norm(sa - sb))
+        shown = repr(got.a) if isinstance(got, Dual) else repr(got)
+    except _ERR as ex:
+        ok, shown = None, f"cannot interpret: {ex}"
+    ctx.decide(rule, ok, sq, None, construct="sqrt:(sqrt a - sqrt b)/(a-b)", detail="1/(sqrt a + sqrt b) times (a - b) equals sqrt a - sqrt b",
+               bad_detail=f"_sqrt_relative_difference(a, b) = `{shown}` is not (sqrt(a)-sqrt(b))/(a-b)")
+    # refutation-only screens: the interpreted formula evaluated at sample points
     screens = [("_exp_relative_difference", lambda x: math.exp(x), [(0.3, -0.2), (1.5, 1.2), (-2.0, 0.5)], {}),
                ("_relative_log_difference_no_tolerance_check", lambda x: math.log(x), [(2.0, 0.5), (1.2, 1.1), (0.3, 3.0)], {}),
                ("_relative_log_difference_taylor", lambda x: math.log(x), [(1.0, 1.01), (2.0, 2.02)], {"tol": 1e-8})]
     n_ok = 0
     for fname, f, pts, opt in screens:
         sc = ctx.repo.find(f"{TM}:{fname}")
-        if sc is None:
+        if sc is None or len(sc.params()) != 2:
             continue
         ctx.touch(sc)
-        rr = sc.returns()
-        if len(rr) != 1:
-            continue
-        env_names = sc.params()
         bad = None
         try:
-            # inline simple local assignments
-            env_expr = {}
-            for s in sc.node.body:
-                if isinstance(s, ast.Assign) and isinstance(s.targets[0], ast.Name):
-                    env_expr[s.targets[0].id] = s.value
-            def val(e, env):
-                class Sub(ast.NodeTransformer):
-                    def visit_Name(self, n):
-                        if n.id in env_expr and n.id not in env:
-                            return self.visit(copy.deepcopy(env_expr[n.id]))
-                        return n
-                e2 = Sub().visit(copy.deepcopy(e))
-                return feval(e2, env)
+            J = SymInterp(ctx.repo)
+            val = J.num(J.run(sc, [a, b]))
+            if not isinstance(val, Dual):
+                continue
             for (x1, x2) in pts:
-                got = val(rr[0], {env_names[0]: x1, env_names[1]: x2})
+                got = J.numeric(val.a, {"a": x1, "b": x2})
                 want = (f(x1) - f(x2)) / (x1 - x2)
-                if abs(got - want) > opt.get("tol", 1e-10) * max(1.0, abs(want)):
+                if not abs(got - want) <= opt.get("tol", 1e-10) * max(1.0, abs(want)):
                     bad = (x1, x2, got, want)
                     break
-        except (NotPolynomial, KeyError, TypeError, ZeroDivisionError, ValueError):
+        except _ERR:
             continue
         if bad:
-            ctx.refuted(rule, sc, rr[0], construct=f"{fname}:divided-difference",
+            ctx.refuted(rule, sc, None, construct=f"{fname}:divided-difference",
                         detail=f"{fname}({bad[0]}, {bad[1]}) evaluates to {bad[2]:.12g} but (f(a)-f(b))/(a-b) = {bad[3]:.12g}")
         else:
             n_ok += 1
     ctx.notes.append(f"refutation-only screen of transcendental divided-difference formulas: {n_ok} formula(s) sampled, no counterexample (not a proof)")
 
 
+def log_taylor(ctx):
+    """_relative_log_difference_taylor(a, b) is (2/(a+b)) * sum_{k<=K} f^(2k)/(2k+1), f = (a-b)/(a+b), for some K >= 4: exact comparison of the
+    interpreted value with the truncated series."""
+    rule = "O3/T7-relative-differences"
+    sc = ctx.repo.find(f"{TM}:_relative_log_difference_taylor")
+    if sc is None:
+        return
+    ctx.touch(sc)
+    a, b = Dual(_A.atom("a")), Dual(_A.atom("b"))
+    order = "?"
+    try:
+        I = SymInterp(ctx.repo)
+        got = I.num(I.run(sc, [a, b]))
+        if not isinstance(got, Dual):
+            raise EvalError("not a scalar")
+        fr = (a.a - b.a) / (a.a + b.a)
+        f2 = fr * fr
+        ok = False
+        series, term = Rat(Poly()), Rat(Poly.const(1))
+        for k in range(0, 13):
+            series = series + term * Rat(Poly.const(Fraction(2, 2 * k + 1)))
+            term = term * f2
+            if k >= 4 and _A.equal(got.a * (a.a + b.a), series):
+                ok, order = True, 2 * k
+                break
+    except _ERR:
+        ok = None
+    ctx.decide(rule, ok, sc, None, construct="log:taylor-series-coefficients", detail=f"(a+b) * value == sum_(k<={order}/2) 2/(2k+1) f^(2k), f=(a-b)/(a+b)",
+               bad_detail="_relative_log_difference_taylor is not a truncated series 2/(a+b) * (1 + f^2/3 + f^4/5 + ...) (at least up to f^8) of (log a - log b)/(a - b)")
+
+
+# ------------------------------------------------------------------------------------------------ O4: Denman-Beavers
+
+def denman_beavers(ctx):
+    """Dense square root (LinAlg.sqrtm_dbp, product form of the Denman-Beavers iteration): for a scalar matrix A = a*I everything
+    commutes, so one step of the loop body, interpreted on symbolic 1x1 data, must preserve the invariant M = X^2 / a (M = X A^-1 X)
+    with and without determinantal scaling, and (X, M) = (sqrt a, 1) must be a fixed point: then the limit M -> I gives X^2 = A.
+    The scaling factor must be the determinantal one while the relative change of X (the carried scalar the switch looks at) is large
+    and 1 when it is small.  Loop, body, carry slots and the switch are found by interpretation (while_loop is a recording stand-in):
+    the two matrix slots of the carry are the ones initialised with A, the switch is the one condition a symbolic carry leaves open,
+    the unscaled situation is the one whose step does not involve a root of the determinant."""
+    rule = "O4/T7-denman-beavers-invariant"
+    LA = "optimism.LinAlg"
+    ctx.need_module(LA)
+    sc = ctx.need(f"{LA}:sqrtm_dbp")
+    a, x = Dual(_A.atom("a")), Dual(_A.atom("x"))
+    I = SymInterp(ctx.repo, positive={"a", "x"})
+    rec = {}
+
+    def wl(it, args, kw):
+        vals = list(args) + [kw.get(k) for k in ("cond_fun", "body_fun", "init_val")][len(args):]
+        rec["cond"], rec["body"], rec["init"] = vals[:3]
+        return tuple(Unknown("loop result") for _ in vals[2]) if isinstance(vals[2], tuple) else Unknown("loop result")
+    I.ext_special["jax.lax.while_loop"] = wl
+    try:
+        I.run(sc, [Arr([a], (1, 1))])
+    except _ERR:
+        pass
+    body, init = rec.get("body"), rec.get("init")
+    if not isinstance(body, Closure) or not isinstance(init, tuple):
+        ctx.undecided(rule, sc, None, construct="loop", detail="while_loop(cond, body, init) with a tuple carry not found by interpretation")
+        return
+    ctx.touch(body.scope)
+    mats = [k for k, v in enumerate(init) if isinstance(v, Arr) and v.shape == (1, 1)]
+    if len(mats) != 2:
+        ctx.undecided(rule, body.scope, None, construct="loop", detail=f"{len(mats)} matrix slots in the loop carry (2 expected: iterate and product)")
+        return
+    scal = [k for k in range(len(init)) if k not in mats]
+
+    def step(order, hyp, X, M):
+        vals = {order[0]: X, order[1]: M}
+        cr = tuple(vals[k] if k in vals else (Dual(v) if isinstance(v, int) and not isinstance(v, bool) else Dual(_A.atom(f"carry{k}")))
+                   for k, v in enumerate(init))
+        I.hyp = dict(hyp)
+        I.sel_log.clear()
+        out = I.call(body, [cr], {})
+        if not (isinstance(out, tuple) and len(out) == len(init)):
+            raise EvalError("the loop body does not return a carry of the same length")
+        return out
+
+    def analyse(order):
+        """-> (situations [(hyp, label, residual, X', M')], switch atom or None, index of the unscaled situation, open conditions)"""
+        step(order, {}, Arr([x], (1, 1)), Arr([x * x / a], (1, 1)))
+        conds = {c.key: c for c in I.sel_log}
+        hyps, switch = [{}], None
+        if len(conds) == 1:
+            atoms = next(iter(conds.values())).atoms()
+            if len(atoms) == 1 and atoms[0].kind in ("lt", "eq"):
+                switch = atoms[0]
+                hyps = [{switch.key: True}, {switch.key: False}]
+        elif conds:
+            raise EvalError(f"{len(conds)} open conditions in the loop body")
+        sits, plain = [], None
+        for k, hyp in enumerate(hyps):
+            o = step(order, hyp, Arr([x], (1, 1)), Arr([x * x / a], (1, 1)))
+            X2, M2 = o[order[0]], o[order[1]]
+            if not (isinstance(X2, Arr) and isinstance(M2, Arr) and isinstance(X2.data[0], Dual) and isinstance(M2.data[0], Dual)):
+                raise EvalError("the step does not return the two matrices")
+            if not any(t in _A.rules or t in I.fn for t in X2.data[0].a.atoms()):
+                plain = k
+            res = simplify(_A.norm(X2.data[0].a * X2.data[0].a / a.a - M2.data[0].a))
+            sits.append((hyp, res))
+        return sits, switch, plain, conds
+    try:
+        order = mats
+        sits, switch, plain, conds = analyse(order)
+        if not any(_A.is_zero(r) for _, r in sits):
+            alt = analyse(mats[::-1])       # both slots start as A: the invariant tells the iterate from the product
+            if all(_A.is_zero(r) for _, r in alt[0]):
+                order, (sits, switch, plain, conds) = mats[::-1], alt
+    except _ERR as ex:
+        ctx.undecided(rule, body.scope, None, construct="invariant-M=X^2/a[scaled]", detail=f"cannot interpret the loop body on 1x1 data: {ex}")
+        return
+    for k, (hyp, res) in enumerate(sits):
+        lab = "unscaled" if k == plain else "scaled"
+        ctx.decide(rule, _A.is_zero(res), body.scope, None, construct=f"invariant-M=X^2/a[{lab}]", detail="one step maps (x, x^2/a) to (x', x'^2/a)",
+                   bad_detail=f"with the scaling {'on' if lab == 'scaled' else 'off'} one step of the Denman-Beavers loop maps (X, M = X^2/a) to a pair with "
+                              f"X'^2/a - M' = {res!r}: M -> I no longer implies X^2 = A")
+        if lab == "unscaled":
+            s_ = Dual(_A.sqrt(a.a))
+            try:
+                o2 = step(order, hyp, Arr([s_], (1, 1)), Arr([Dual(1)], (1, 1)))
+                okf = _A.equal(o2[order[0]].data[0].a, s_.a) and _A.equal(o2[order[1]].data[0].a, _A.const(1))
+                shown = f"({o2[order[0]].data[0].a!r}, {o2[order[1]].data[0].a!r})"
+            except _ERR as ex:
+                okf, shown = None, str(ex)
+            ctx.decide(rule, okf, body.scope, None, construct="fixed-point-(sqrt a, 1)", detail="(sqrt a, 1) is mapped to itself",
+                       bad_detail=f"(X, M) = (sqrt a, 1) is mapped to {shown}: the square root is not a fixed point of the iteration")
+    # ---- scaling switch
+    ok, shown = None, "?"
+    if switch is not None and plain is not None and len(sits) == 2:
+        slot = [k for k in scal if f"carry{k}" in switch.args[0].atoms()]
+        shown = switch.key
+        if len(slot) == 1 and switch.args[0].atoms() == {f"carry{slot[0]}"}:
+            nm = f"carry{slot[0]}"
+            # the carried scalar is a relative change (>= 0): large = 1, small = 1e-8
+            try:
+                far, near = I.numeric_cond(switch, {nm: 1.0}), I.numeric_cond(switch, {nm: 1e-8})
+                plain_truth = sits[plain][0][switch.key]
+                ok = (near == plain_truth) and (far != plain_truth)
+                shown = f"scaling is {'off' if far == plain_truth else 'on'} when the relative change is 1 and {'off' if near == plain_truth else 'on'} when it is 1e-8"
+            except (KeyError, ZeroDivisionError):
+                ok = None
+    elif switch is None and not conds:
+        ok, shown = False, "no switch: the scale factor does not depend on the relative change of the iterate"
+    ctx.decide("O4/T2-scaling-switch", ok, body.scope, None, construct="scaling-on-while-far-from-convergence", detail=shown,
+               bad_detail=f"{shown}: the determinantal scaling must be applied while the relative change of X is at least the threshold and replaced by 1 below it; "
+                          f"otherwise matrices of extreme magnitude exhaust the iteration cap (silently unconverged result) or the final quadratic phase is perturbed")
+
+
 def variants(repo):
     from optilint.selftest import Variant, sub, sub_in_func, alpha_rename, reformat
+    from .C12_variants import multi, REF_A_TM, REF_B_TM, REF_B_LA, REF_C_TM, REF_C_LA, REF_D_TM
     T = "optimism/TensorMath.py"
     return [
         Variant("detpIm1 misses I2", T, sub("    return trace(A) + I2(A) + det(A)", "    return trace(A) + det(A)"), "O1/T7-helper-identities"),
@@ -614,4 +910,60 @@ def variants(repo):
         Variant("spherical vectors repeated", T, sub("    evec1 = if_then_else(c2lsmall_neg, evec1, np.array([0.0, 1.0, 0.0]))", "    evec1 = if_then_else(c2lsmall_neg, evec1, np.array([1.0, 0.0, 0.0]))"), "O2/T7-eigen-solver-algebra"),
         Variant("alpha-rename eigen_sym33_non_unit", T, alpha_rename("eigen_sym33_non_unit"), None),
         Variant("reformat", T, reformat(), None),
+        # ---- further violating variants (roles found on values)
+        Variant("values assembled in another order than the vectors", T, sub("    evals = np.array([eval0, eval1, eval2])", "    evals = np.array([eval1, eval0, eval2])"), "O2/T9-eigen-roles"),
+        Variant("vectors stacked as rows", T, sub("    evecs = np.column_stack((evec0,evec1,evec2))\n\n    #idx", "    evecs = np.array([evec0,evec1,evec2])\n\n    #idx"), "O2/T9-eigen-roles"),
+        Variant("descending sort", T, sub("    idx = np.argsort(evals)\n", "    idx = np.argsort(-evals)\n"), "O2/T9-eigen-roles"),
+        Variant("values returned unsorted, vectors sorted", T, sub("    return evals[idx],evecs[:,idx]", "    return evals,evecs[:,idx]"), "O2/T9-eigen-roles"),
+        Variant("spectral form without transpose", T, sub("    return V@np.diag(func(lam))@V.T", "    return V@np.diag(func(lam))@V"), "O2/T9-eigen-roles"),
+        Variant("unit wrapper normalises a row", T, sub("    evec1 = evecs[:,1]/np.linalg.norm(evecs[:,1])", "    evec1 = evecs[1,:]/np.linalg.norm(evecs[1,:])"), "O2/T9-eigen-roles"),
+        Variant("reciprocal of the norm not guarded", T, sub("    cmaxInv = if_then_else(cmax > 0.0, 1.0/cmax, 1.0)", "    cmaxInv = 1.0/cmax"), "O2/T9-eigen-roles"),
+        Variant("scaled by the trace instead of a norm", T, sub("    cmax = np.linalg.norm(tensor, ord=np.inf)", "    cmax = trace(tensor)"), "O2/T9-eigen-roles"),
+        Variant("solver called on the unscaled tensor", T, sub("    evals, evecs = eigen_sym33_non_unit(scaledTensor)", "    evals, evecs = eigen_sym33_non_unit(tensor)"), "O2/T9-eigen-roles"),
+        Variant("helper gets tangents as primals", T, sub_in_func("_exp_symm_jvp", "primals, tangents)", "tangents, primals)", nth=1), "O3/T5-custom-jvp-wiring"),
+        Variant("power rule differentiates another exponent", T, sub("_symmetric_matrix_function_jvp_helper(lambda x: np.power(x, m), lambda l1", "_symmetric_matrix_function_jvp_helper(lambda x: np.power(x, m - 1), lambda l1"), "O3/T5-custom-jvp-wiring"),
+        Variant("safe_sqrt rule recomputes the primal", "optimism/Math.py", sub("    f = safe_sqrt(x)\n", "    f = np.sqrt(x)\n"), "O3/T5-custom-jvp-wiring"),
+        Variant("fallback switch |gap| < 1e-8", T, sub("        return np.where(x2 == x1, df(x1), relative_difference(x1, x2_safe))", "        return np.where(np.abs(x2 - x1) < 1e-8, df(x1), relative_difference(x1, x2_safe))"), "O3/T5-custom-jvp-wiring"),
+        Variant("sign of the third invariant", T, sub("    two_cos_thd3 = 2.0*cos_thd3*np.sign(rr)", "    two_cos_thd3 = 2.0*cos_thd3*np.sign(c3)"), "O2/T7-eigen-solver-algebra"),
+        Variant("cubic argument not clipped", T, sub("    arg = np.minimum(abs(rr), 1.0)", "    arg = abs(rr)"), "O2/T7-eigen-solver-algebra"),
+        Variant("cubic argument without absolute value", T, sub("    arg = np.minimum(abs(rr), 1.0)", "    arg = np.minimum(rr, 1.0)"), "O2/T7-eigen-solver-algebra"),
+        Variant("half sum in the Wilkinson shift", T, sub("    b = 0.5*(rm2xx-rm2yy)", "    b = 0.5*(rm2xx+rm2yy)"), "O2/T7-eigen-solver-algebra"),
+        Variant("radicand with a minus", T, sub("Math.safe_sqrt(b*b+rm2xy_rm2xy)", "Math.safe_sqrt(b*b-rm2xy_rm2xy)"), "O2/T7-eigen-solver-algebra"),
+        Variant("second root with the wrong sign of the first", T, sub("    eval1 = rm2xx + rm2yy - eval0", "    eval1 = rm2xx + rm2yy + eval0"), "O2/T7-eigen-solver-algebra"),
+        Variant("DB inverse of the iterate instead of the product", "optimism/LinAlg.py", sub("        N = np.linalg.inv(M)", "        N = np.linalg.inv(X)"), "O4/T7-denman-beavers-invariant"),
+        Variant("DB scaling never switched off", "optimism/LinAlg.py", sub("        g = np.where(diff >= scaleTol,\n                     scaling(M),\n                     1.0)", "        g = scaling(M)"), "O4/T2-scaling-switch"),
+        # ---- further preserving variants: whole-file refactorings (rules/C12_variants.py) and equivalent spellings
+        Variant("refactoring A (helpers, vectorised idioms)", T, multi(REF_A_TM), None),
+        Variant("refactoring B (negated tests, swapped branches)", T, multi(REF_B_TM), None),
+        Variant("refactoring B (LinAlg)", "optimism/LinAlg.py", multi(REF_B_LA), None),
+        Variant("refactoring C (temporaries, keywords, loops)", T, multi(REF_C_TM), None),
+        Variant("refactoring C (LinAlg)", "optimism/LinAlg.py", multi(REF_C_LA), None),
+        Variant("refactoring D (matrix form, einsum / cross helpers)", T, multi(REF_D_TM), None),
+        Variant("DB carry with the product in the first slot", "optimism/LinAlg.py", multi([
+            ("        X, M, error, k, diff = loopData", "        M, X, error, k, diff = loopData"),
+            ("        return (X, M, error, k, diff)", "        return (M, X, error, k, diff)"),
+            ("    X,_,_,k,_ = jax.lax.while_loop(cond_f, body_f, loopData0)", "    _,X,_,k,_ = jax.lax.while_loop(cond_f, body_f, loopData0)")]), None),
+        Variant("safe_sqrt rule with named branches and a temporary", "optimism/Math.py", multi([
+            ("    df = v * lax.cond( x <= 0,\n                       lambda x: 0.,\n                       lambda x: 0.5/f,\n                       x )\n    return f, df",
+             "    def flat(_):\n        return 0.\n\n    def slope(_):\n        return 0.5/f\n\n    rate = lax.cond(x <= 0, flat, slope, x)\n    return f, rate*v")]), None),
+        Variant("guard clauses, assertions and index access instead of unpacking", T, multi([
+            ("def eigen_sym33_unit(tensor):\n    cmax = np.linalg.norm(tensor, ord=np.inf)",
+             "def eigen_sym33_unit(tensor):\n    if tensor.shape != (3, 3):\n        raise ValueError(\"eigen_sym33_unit expects a 3x3 tensor\")\n    cmax = np.linalg.norm(tensor, ord=np.inf)"),
+            ("    lam, V = eigen_sym33_unit(A)\n    return V@np.diag(func(lam))@V.T",
+             "    assert A.shape == (3, 3), \"3x3 tensors only\"\n    if not callable(func):\n        raise TypeError(\"func must be callable\")\n"
+             "    decomposition = eigen_sym33_unit(A)\n    lam = decomposition[0]\n    V = decomposition[1]\n    spectrum = np.diag(func(lam))\n    return V@spectrum@V.T"),
+            ("    C, = primals\n    Cdot, = tangents\n",
+             "    if len(primals) != 1 or len(tangents) != 1:\n        raise ValueError(\"matrix functions of one argument only\")\n    C = primals[0]\n    Cdot = tangents[0]\n")]), None),
+        Variant("explicit row-sum norm, conditions collected in boolean arrays", T, multi([
+            ("    cmax = np.linalg.norm(tensor, ord=np.inf)", "    cmax = np.max(np.sum(np.abs(tensor), axis=1))"),
+            ("    both_zero = rm2xx2iszero & rm2xy_rm2xyiszero", "    both_zero = np.all(np.array([rm2xx2iszero, rm2xy_rm2xyiszero]))"),
+            ("    k0_largest = k0gk1 & k0gk2", "    k0_largest = np.array([k0gk1, k0gk2], dtype=bool).all()")]), None),
+        Variant("clamp written with sqrt of the square and clip", T, sub("    arg = np.minimum(abs(rr), 1.0)", "    arg = np.clip(np.sqrt(rr*rr), 0.0, 1.0)"), None),
+        Variant("private tangent helper renamed", T, lambda src: src.replace("_symmetric_matrix_function_jvp_helper", "_smf_tangent"), None),
+        Variant("guard written as a difference", T, sub("    c2lsmall_neg = c2 < c2tol", "    c2lsmall_neg = c2 - c2tol < 0.0"), None),
+        Variant("guard with both sides negated", T, sub("    c2lsmall_neg = c2 < c2tol", "    c2lsmall_neg = -c2 > -c2tol"), None),
+        Variant("sign of minus the third invariant (equivalent)", T, sub("    two_cos_thd3 = 2.0*cos_thd3*np.sign(rr)", "    two_cos_thd3 = 2.0*cos_thd3*np.where(rr < 0.0, -1.0, 1.0)"), None),
+        Variant("frobenius norm in the unit wrapper (equivalent role)", T, sub("    cmax = np.linalg.norm(tensor, ord=np.inf)", "    cmax = np.linalg.norm(tensor)"), None),
+        Variant("vectors as rows then transposed (equivalent)", T, sub("    evecs = np.column_stack((evec0,evec1,evec2))\n\n    #idx", "    evecs = np.array([evec0,evec1,evec2]).T\n\n    #idx"), None),
+        Variant("sorted through the transpose (equivalent)", T, sub("    return evals[idx],evecs[:,idx]", "    return evals[idx],evecs.T[idx].T"), None),
     ]
